@@ -62,6 +62,13 @@ def _call(gen, case, seed, with_order):
         kw = dict(w_min=w_min, w_max=w_max, random_state=seed)
         if with_order:
             kw["return_ordering"] = True
+        if case.get("debug") and seed % 3 == 0:        # tracing flag: same contract with it (prints are discarded)
+            import contextlib
+            import io
+            with contextlib.redirect_stdout(io.StringIO()):
+                o = lib(gens.dag_avg_deg, p, case["k"], debug=True, **kw)
+            if o.ok or not (isinstance(o.exc, TypeError) and "debug" in str(o.exc)):
+                return o
         return lib(gens.dag_avg_deg, p, case["k"], **kw)
     kw = dict(w_min=w_min, w_max=w_max, random_state=seed)
     if with_order:
@@ -226,7 +233,7 @@ def _grid(tier, seed):
                 idx += 1
                 Sp = S if p <= 8 else max(50, S // 4) if p == 20 else 50
                 cfgs.append({"sub": "grid", "gen": "avg", "p": p, "k": k, "w": list(w),
-                             "ordering": ["yes", "mixed", "yes", "no"][idx % 4],
+                             "ordering": ["yes", "mixed", "yes", "no"][idx % 4], "debug": idx % 5 == 0,
                              "seeds": [seed * 1000003 + idx * 5003 + s for s in range(Sp)]})
     for p in [0, 1, 2, 3, 4, 5, 6, 8, 20]:
         for wi, w in enumerate(RANGES):
